@@ -3,6 +3,7 @@ package main
 // The harness API (functions declared in the generated prelude, intercepted here).
 
 import (
+	"slices"
 	"fmt"
 	"os"
 	"path/filepath"
@@ -63,6 +64,10 @@ func vKernel(name string, args ...any) (bool, any)         { return false, nil }
 func vDeployVersion(contract string, version int, args ...any) {}
 func vUpdateFrom(contract string, oldVersion int, data ...any) (bool, any) { return false, nil }
 func vRepoVersion() int                                    { return 0 }
+func vPresetDeploy(contract string)                        {}
+func vPreset(contract string, key []byte, val any)         {}
+func vSerialize(x any) []byte                              { return nil }
+func vUpdateFromPreset(contract string, oldVersion int, data ...any) (bool, any) { return false, nil }
 func vHeight() int                                         { return 0 }
 func vTime() int                                           { return 0 }
 func vFixClock()                                           {}
@@ -711,6 +716,69 @@ func (e *Engine) vcall(fn *ssa.Function, s *St, in *ssa.Call, ip int, short stri
 			return set(BoolV{B(e.world.effects())})
 		}
 		return set(BoolV{e.txEffects(s)})
+	case "vPresetDeploy": // an "old release" whose storage is preset raw (old layouts current code cannot produce)
+		e.worldUsed = true
+		if e.model != nil {
+			e.world.deployStandIn(tag())
+		} else {
+			e.bumpBlock(s.State)
+		}
+		return set(UnitV{})
+	case "vPreset":
+		c := tag()
+		key := args[1].(BytesV)
+		if e.model != nil {
+			e.world.putRaw(c, toGo(key).([]byte), toGoHeap(args[2], s.State))
+			return set(UnitV{})
+		}
+		e.cur = e.index(c)
+		val := args[2]
+		if _, isNull := val.(NullV); isNull {
+			panic("vPreset of nil")
+		}
+		e.put(s.State, e.ns(key.b), val)
+		e.bumpBlock(s.State) // one putRaw transaction on the replay side
+		return set(UnitV{})
+	case "vSerialize":
+		if e.model != nil {
+			return set(constBytes(string(e.world.serialize(toGoHeap(args[0], s.State)))))
+		}
+		return set(SerV{e.freeze(s.State, args[0])})
+	case "vUpdateFromPreset": // the real _deploy(data||version, isUpdate=true) on the preset storage
+		c := tag()
+		data := append(append([]Value(nil), e.listArgs(s.State, args[2])...), args[1])
+		s.State.pending = nil
+		if e.model != nil {
+			goArgs := make([]any, len(data))
+			for i, a := range data {
+				goArgs[i] = toGoHeap(a, s.State)
+			}
+			ok, fault := e.world.updateStandIn(c, goArgs)
+			e.rlog(fmt.Sprintf("  tx %s(stand-in).update(<new nef>, <new manifest>, %s) -> ok=%v %s", c, showArgs(goArgs), ok, fault))
+			s.env[in] = TupleV{[]Value{BoolV{B(ok)}, NullV{}}}
+			return nil, nil, true
+		}
+		e.signers = e.deploySigners()
+		e.cur = e.index(c)
+		e.callers = []int{-1}
+		e.txTime = Add(s.lastTime, I(1))
+		store0, gas0 := s.store, cloneGas(s.gas)
+		s.State.lastTime = e.txTime
+		s.State.notifs = nil
+		s.State.height = Add(s.height, I(1))
+		s.State.txStore0, s.State.txGas0 = store0, gas0
+		e.roDepth = 0
+		dataV := ListV{e.alloc(s.State, ArrObj{data})}
+		outs := e.runFrame(e.linked[c].Func("_deploy"), []Value{dataV, BoolV{tTrue}}, s.State)
+		next, fin := e.continueWith(s, in, ip, outs, func(o Out) (Value, bool) {
+			if o.panicked {
+				o.State.store, o.State.notifs = store0, nil
+				o.State.gas = cloneGas(gas0)
+				return TupleV{[]Value{BoolV{tFalse}, NullV{}}}, false
+			}
+			return TupleV{[]Value{BoolV{tTrue}, NullV{}}}, false
+		})
+		return next, fin, false
 	case "vUpdateFrom": // vUpdateFrom(contract, oldVersion, data...): the contract's update(nef, manifest, data) where the running (old) code reports oldVersion
 		c := tag()
 		data := e.listArgs(s.State, args[2])
@@ -743,6 +811,61 @@ func (e *Engine) vcall(fn *ssa.Function, s *St, in *ssa.Call, ip int, short stri
 		return next, fin, cont
 	}
 	panic("unknown harness function " + short)
+}
+
+// harnessFaults turns the faulted outcomes of the harness frame itself into an obligation. Harness code
+// runs outside every transaction: the only way it can fault is on a value a contract returned that does not
+// have the shape its declared type promises (a struct with fewer fields, Null for a struct, a shorter list
+// than the one indexed). Such a path used to end silently, taking the assertions after it along.
+func (e *Engine) harnessFaults(prop string, outs []Out) {
+	id := prop + "/harness-runs-to-completion"
+	if e.model != nil {
+		for _, o := range outs {
+			if o.panicked {
+				e.replayFails[id]++
+				e.rlog(fmt.Sprintf("  the harness faults on a value returned by the real VM (%s)", faultText(o.val)))
+			}
+		}
+		return
+	}
+	ob := e.obligation(id, "assert")
+	for _, o := range outs {
+		if !o.panicked {
+			continue
+		}
+		t0 := nowMs()
+		r, m := e.solver.checkX(o.State.pc, nil, e.allVars(), true)
+		e.stats.queries++
+		ob.Paths++
+		ob.Ms += nowMs() - t0
+		note := "harness-level fault: " + faultText(o.val)
+		switch {
+		case r == "sat":
+			if len(ob.Models) < 3 {
+				ob.Models = append(ob.Models, m)
+			}
+			ob.Verdict = "sat"
+			if !slices.Contains(ob.Notes, note) {
+				ob.Notes = append(ob.Notes, note)
+			}
+		case r == "unsat":
+		default:
+			ob.Unknown++
+			ob.Notes = append(ob.Notes, r)
+		}
+	}
+	if ob.Verdict == "" {
+		ob.Verdict = "unsat"
+	}
+}
+
+func faultText(v Value) string {
+	if b, ok := v.(BytesV); ok {
+		if m, ok := isConstBytes(b); ok {
+			return m
+		}
+	}
+	return "fault"
 }
 
 func (e *Engine) deploySigners() []signer {
